@@ -74,12 +74,56 @@ const IRQ: u16 = 128;
 const FRQ: u16 = 256;
 const PA: u16 = 512;
 
+// which operation's IRQ mask was programmed last since the last configuration loss, decoded from the
+// bytes on the wire (a bit set: the SX126x `All` mask is what the driver programs for standby AND receive)
+const IC_STBY: u8 = 1;
+const IC_TX: u8 = 2;
+const IC_RX: u8 = 4;
+const IC_CAD: u8 = 8;
+
+/// SX126x CfgDIOIrq arguments (irq mask, DIO1, DIO2, DIO3 masks, big endian)
+fn irq_class126(a: &[u8]) -> u8 {
+    if a.len() < 8 || a[0] != a[2] || a[1] != a[3] || a[4..8] != [0, 0, 0, 0] {
+        return 0;
+    }
+    match ((a[0] as u16) << 8) | a[1] as u16 {
+        0xFFFF => IC_STBY | IC_RX,
+        0x0201 => IC_TX,
+        0x0180 => IC_CAD,
+        _ => 0,
+    }
+}
+
+/// SX127x: the RegIrqFlagsMask value written last and the RegDioMapping1 value written after it
+fn irq_class127(mask: u8, dio: u8) -> u8 {
+    let dio0 = dio >> 6;
+    if mask == 0xF7 && dio0 == 1 {
+        IC_TX
+    } else if mask == 0x0F && dio0 == 0 && (dio >> 4) & 3 == 0 && dio & 3 == 1 {
+        IC_RX
+    } else if mask == 0xFA && dio0 == 2 {
+        IC_CAD
+    } else if mask == 0xFF && dio0 == 3 {
+        IC_STBY
+    } else {
+        0
+    }
+}
+
 #[derive(Clone, Copy)]
 struct Track {
     mode: ChipMode,
     items: u16,
     commanded_asleep: bool,
     started_unprogrammed: bool,
+    /// IC_* bit set of the IRQ routing programmed last (0: none / incomplete since the last loss)
+    irq_class: u8,
+    /// SX127x: RegIrqFlagsMask written, RegDioMapping1 not yet
+    irq_pending127: Option<u8>,
+    /// SetTx / SetCad executed while the IRQ routing programmed last was not the one for it
+    started_wrong_irq: bool,
+    /// the same for SetRx / SetRxDutyCycle (not required of `listen`, an RSSI-only reception)
+    rx_started_wrong_irq: bool,
 }
 
 struct Needs {
@@ -100,6 +144,12 @@ impl Track {
         if self.items & need != need {
             self.started_unprogrammed = true;
         }
+        match m {
+            ChipMode::Tx if self.irq_class & IC_TX == 0 => self.started_wrong_irq = true,
+            ChipMode::Cad if self.irq_class & IC_CAD == 0 => self.started_wrong_irq = true,
+            ChipMode::Rx | ChipMode::RxDuty if self.irq_class & IC_RX == 0 => self.rx_started_wrong_irq = true,
+            _ => {}
+        }
     }
     fn step126(&mut self, n: &Needs, w: &[u8]) {
         let Some(&op) = w.first() else { return };
@@ -119,6 +169,7 @@ impl Track {
                 self.mode = ChipMode::Sleep;
                 if cold {
                     self.items = 0;
+                    self.irq_class = 0;
                 }
             }
             0x80 => self.mode = ChipMode::Standby,
@@ -133,7 +184,10 @@ impl Track {
             0x8F => self.items |= BB,
             0x8B => self.items |= MODU,
             0x8C => self.items |= PKT,
-            0x08 => self.items |= IRQ,
+            0x08 => {
+                self.items |= IRQ;
+                self.irq_class = irq_class126(&w[1..]);
+            }
             0x86 => self.items |= FRQ,
             0x8E => self.items |= PA,
             0x0D => {
@@ -172,7 +226,18 @@ impl Track {
             (0x0e, _) => self.items |= BB,
             (0x1d, _) => self.items |= MODU,
             (0x20, _) => self.items |= PKT,
-            (0x11, _) => self.items |= IRQ,
+            (0x11, v) => {
+                self.items |= IRQ;
+                self.irq_class = 0;
+                self.irq_pending127 = v;
+            }
+            (0x40, v) => {
+                self.irq_class = match (self.irq_pending127, v) {
+                    (Some(m), Some(d)) => irq_class127(m, d),
+                    _ => 0,
+                };
+                self.irq_pending127 = None;
+            }
             (0x06, _) => self.items |= FRQ,
             (0x09, _) => self.items |= PA,
             _ => {}
@@ -186,6 +251,8 @@ impl Track {
         if tok == "Rst" {
             self.mode = ChipMode::Standby;
             self.items = 0;
+            self.irq_class = 0;
+            self.irq_pending127 = None;
         } else if let Some(rest) = tok.strip_prefix('s') {
             let hexs = rest.split('/').next().unwrap_or("");
             let w = unhex(hexs);
@@ -529,14 +596,28 @@ fn verdict(chip: &str, calls: &[&str]) -> Option<String> {
     // the constructor's init: run it as an explicit first call on a driver that `new` already initialised
     // is not the same thing, so replay it through the tracker from the transcript of `new`
     let (obs, new_log) = run_seq_with_new_log(chip, calls)?;
-    let mut t = Track { mode: ChipMode::Standby, items: 0, commanded_asleep: false, started_unprogrammed: false };
+    let mut t = Track {
+        mode: ChipMode::Standby,
+        items: 0,
+        commanded_asleep: false,
+        started_unprogrammed: false,
+        irq_class: 0,
+        irq_pending127: None,
+        started_wrong_irq: false,
+        rx_started_wrong_irq: false,
+    };
     for tok in &new_log {
         t.event(is126, &needs, tok);
     }
     let mut before = RadioMode::Standby;
     for (i, o) in obs.iter().enumerate() {
+        let rx_wrong_before = t.rx_started_wrong_irq;
         for tok in &o.log {
             t.event(is126, &needs, tok);
+        }
+        // `listen` starts an RSSI-only reception: no IRQ routing is required of it (as for the items)
+        if calls.get(i).map(|c| c.starts_with("listen@")).unwrap_or(false) {
+            t.rx_started_wrong_irq = rx_wrong_before;
         }
         let n = i + 1;
         let reported = o.result == "err:TransmitTimeout" || o.result == "err:ReceiveTimeout";
@@ -544,6 +625,8 @@ fn verdict(chip: &str, calls: &[&str]) -> Option<String> {
             return Some(format!("I1-commanded-asleep@call{}", n));
         } else if t.started_unprogrammed {
             return Some(format!("I3-started-unprogrammed@call{}", n));
+        } else if t.started_wrong_irq || t.rx_started_wrong_irq {
+            return Some(format!("I3-started-with-irq-mask-of-another-operation@call{}", n));
         } else if t.items & needs.base != needs.base && !o.cold_after {
             return Some(format!("I2-config-lost-but-not-cold_start@call{}", n));
         } else if reported
@@ -785,7 +868,7 @@ pub fn run(tier: &str, seed: u64, dir: &str) {
     }
     sink.finish(
         dir,
-        "every sequence of API calls up to the tier's depth (3 quick / 4 thorough) over the 16-call alphabet {init, sleep warm/cold, prepare_for_tx, tx, prepare_for_rx single/continuous/duty-cycle, start_rx, complete_rx, rx, rx_switch_channel, listen, prepare_for_cad, cad, set_lora_sync_word} on the real LoRa<Sx126x<Sx1262>> and LoRa<Sx127x<Sx1276>> and on Sx1261 with TCXO / Sx1272 with PA_BOOST (in the quick tier these two run the fault-free sequences only) over the fake chips; for each sequence (depth 4: a seeded fortieth): an I/O fault at every SPI / busy / IRQ / RF-switch / reset step of the calls, a future dropped at every await_irq, 11 chip interrupt outcomes (done, timeout, CRC error, header error, spurious, preamble first, CAD done/detected) on every call that reads the IRQ status, and every fault position inside the error path such an outcome triggers. Compared per call: result, the full I/O transcript (hashed in digest lines) and verif_state() = (radio_mode, cold_start, calibrate_image); the Lean side also evaluates I1-I5 on the run, and `inv` lines evaluate the same invariants on the real driver's own transcript with an independent Rust tracker (expected verdict: ok). `adp` lines: every sequence up to depth 3 of the LoRaWAN adapter's calls (LorawanRadio tx / setup_rx single+continuous / rx_single / rx_continuous / low_power) with the same faults, drops and interrupt outcomes. Distinct = distinct op lines; every line is a concrete scenario.",
+        "every sequence of API calls up to the tier's depth (3 quick / 4 thorough) over the 16-call alphabet {init, sleep warm/cold, prepare_for_tx, tx, prepare_for_rx single/continuous/duty-cycle, start_rx, complete_rx, rx, rx_switch_channel, listen, prepare_for_cad, cad, set_lora_sync_word} on the real LoRa<Sx126x<Sx1262>> and LoRa<Sx127x<Sx1276>> and on Sx1261 with TCXO / Sx1272 with PA_BOOST (in the quick tier these two run the fault-free sequences only) over the fake chips; for each sequence (depth 4: a seeded fortieth): an I/O fault at every SPI / busy / IRQ / RF-switch / reset step of the calls, a future dropped at every await_irq, 11 chip interrupt outcomes (done, timeout, CRC error, header error, spurious, preamble first, CAD done/detected) on every call that reads the IRQ status, and every fault position inside the error path such an outcome triggers. Compared per call: result, the full I/O transcript (hashed in digest lines) and verif_state() = (radio_mode, cold_start, calibrate_image); the Lean side also evaluates I1-I5 on the run, and `inv` lines evaluate the same invariants on the real driver's own transcript with an independent Rust tracker (expected verdict: ok). I3 includes the mode-specific IRQ clause: at every executed SetTx / SetRx / SetRxDutyCycle / SetCad the IRQ routing programmed last since the last configuration loss (decoded from the CfgDIOIrq masks resp. the RegIrqFlagsMask + RegDioMapping1 writes) is the one the driver programs for that operation (`listen` exempt). `adp` lines: every sequence up to depth 3 of the LoRaWAN adapter's calls (LorawanRadio tx / setup_rx single+continuous / rx_single / rx_continuous / low_power) with the same faults, drops and interrupt outcomes. Distinct = distinct op lines; every line is a concrete scenario.",
         false,
         serde_json::json!({"alphabet": ALPHABET, "depth": depth, "chips": chips}),
     );
